@@ -133,6 +133,55 @@ func (g *worldGen) scalar() *WType {
 	}
 }
 
+// compositeDefault sometimes gives an array, map or struct a default value with
+// several entries (JSON Schema and OpenAPI only; CUE ignores it). Object-valued
+// defaults reach the jennies as Go maps. Drawn from a side stream.
+func (g *worldGen) compositeDefault(t *WType) *WType {
+	sr := g.r.Side("composite-default")
+	if !sr.Chance(1, 4) {
+		return t
+	}
+	val := func(e *WType, i int) any {
+		if e == nil {
+			return nil
+		}
+		switch e.K {
+		case "string":
+			return fmt.Sprintf("v%d", i)
+		case "int":
+			return i + 1
+		case "number":
+			return float64(i) + 0.5
+		case "bool":
+			return i%2 == 0
+		case "any":
+			return fmt.Sprintf("any%d", i)
+		}
+		return nil
+	}
+	switch t.K {
+	case "array":
+		if v := val(t.Elem, 0); v != nil {
+			t.Default = []any{v, val(t.Elem, 1)}
+		}
+	case "map":
+		if v := val(t.Elem, 0); v != nil {
+			t.Default = map[string]any{"zeta": v, "alpha": val(t.Elem, 1), "mid": val(t.Elem, 2)}
+		}
+	case "struct":
+		d := map[string]any{}
+		for i, f := range t.Fields {
+			if v := val(f.T, i); v != nil && f.T.Default == nil {
+				d[f.Name] = v
+			}
+		}
+		if len(d) >= 2 {
+			t.Default = d
+		}
+	}
+	return t
+}
+
 func (g *worldGen) structType(maxFields int) *WType {
 	r := g.r
 	n := 1 + r.Intn(maxFields)
@@ -203,11 +252,11 @@ func (g *worldGen) typ() *WType {
 	case 4, 5:
 		return g.ref()
 	case 6:
-		return &WType{K: "array", Elem: g.typ()}
+		return g.compositeDefault(&WType{K: "array", Elem: g.typ()})
 	case 7:
-		return &WType{K: "map", Elem: g.typ()}
+		return g.compositeDefault(&WType{K: "map", Elem: g.typ()})
 	case 8:
-		return g.structType(3)
+		return g.compositeDefault(g.structType(3))
 	case 9:
 		// union of scalars
 		n := 2 + r.Intn(2)
@@ -371,6 +420,21 @@ func GenPackage(r *Rand, name string, opts GenOpts) *WPackage {
 		p.Objects = append(p.Objects, WObject{Name: "Holder", T: holder})
 		g.objNames = append(g.objNames, "Holder")
 	}
+	// constant references (only CUE can express them; the other formats see plain constants):
+	// an enum object and a struct whose fields pin one of its members. Drawn from a side
+	// stream so that the rest of the package does not depend on whether this block exists.
+	if sr := r.Side("constref:" + name); sr.Chance(1, 3) {
+		members := []any{"ka", "kb", "kc"}
+		p.Objects = append(p.Objects, WObject{Name: "KindEnum", T: &WType{K: "enum", Enum: members}})
+		uses := &WType{K: "struct", Fields: []WField{
+			{Name: "k", T: &WType{K: "constref", Ref: "KindEnum", Const: Pick(sr, members)}, Required: true},
+			{Name: "other", T: &WType{K: "constref", Ref: "KindEnum", Const: Pick(sr, members)}, Required: sr.Bool()},
+		}}
+		if sr.Bool() {
+			uses.Fields = append(uses.Fields, WField{Name: "free", T: &WType{K: "ref", Ref: "KindEnum"}})
+		}
+		p.Objects = append(p.Objects, WObject{Name: "UsesKind", T: uses})
+	}
 	return p
 }
 
@@ -431,7 +495,7 @@ func (t *WType) jsonSchema(refPrefix string) map[string]any {
 		} else {
 			m["type"] = "integer"
 		}
-	case "const":
+	case "const", "constref":
 		m["const"] = t.Const
 		switch t.Const.(type) {
 		case string:
@@ -507,7 +571,7 @@ func (t *WType) openAPI() map[string]any {
 	case "null":
 		// OpenAPI 3.0 has no null type
 		return map[string]any{"type": "string", "nullable": true}
-	case "const":
+	case "const", "constref":
 		delete(m, "const")
 		m["enum"] = []any{t.Const}
 	case "int":
@@ -683,6 +747,9 @@ func (t *WType) cue(ind string) string {
 		return strings.Join(parts, " | ")
 	case "const":
 		return cueLit(t.Const)
+	case "constref":
+		// `#Enum & "member"`: the one shape cog's CUE front end turns into a constant reference
+		return "#" + t.Ref + " & " + cueLit(t.Const)
 	case "union":
 		var parts []string
 		for _, b := range t.Branches {
